@@ -514,3 +514,8 @@ def _table_crosscheck(rep, prop):
     if counts.get("AddCategory", 0) != n_interp:
         raise AnalysisError("table cross-check: %d AddCategory calls in posc.py by census, %d interpreted" % (counts.get("AddCategory", 0), n_interp))
     rep.analysed["table cross-check"] = "interpreter and call-shape census agree on %d unit symbols and %d category calls" % (len(symbols), n_interp)
+control("C18", "GetFractionalPart cuts the digits without looking for the exponent (inverse of fix 4f1625f)",
+        [(FV, '            if "e" in str_value.lower():\n                # Exponent notation ("1e-05") has no plain digits to cut: take the part numerically.\n                return value % 1.0\n', "")], "C18.R8")
+control("C18", "GetMaxNumerator assumes the fractional part never prints with an exponent",
+        [(FV, '            if ixe == -1:\n                f2 = str_value\n            else:\n                f2 = str_value[0:ixe]\n', "            f2 = str_value\n"),
+         (FV, '            ixe = str_value.lower().find("e")\n', "")], "C18.R8")
